@@ -1,4 +1,4 @@
-// Correspondence harness for C10: drives every partial-signature-admitting handler of the real
+// Correspondence harness for C10: drives every handler that takes in partial signatures of the real
 // validatorapi.Component (secure mode) and the real parsigex handler (parsigex.NewParSigEx with
 // parsigex.NewEth2Verifier and core.NewDutyGater, reached through the stream handler it registers
 // on a stub host) with a real lock-like set of public shares and real key shares.  For every call
@@ -20,8 +20,12 @@ import (
 	"testing"
 	"time"
 
+	"github.com/OffchainLabs/go-bitfield"
 	eth2api "github.com/attestantio/go-eth2-client/api"
 	eth2v1 "github.com/attestantio/go-eth2-client/api/v1"
+	eth2deneb "github.com/attestantio/go-eth2-client/api/v1/deneb"
+	eth2electra "github.com/attestantio/go-eth2-client/api/v1/electra"
+	eth2fulu "github.com/attestantio/go-eth2-client/api/v1/fulu"
 	eth2spec "github.com/attestantio/go-eth2-client/spec"
 	"github.com/attestantio/go-eth2-client/spec/altair"
 	eth2p0 "github.com/attestantio/go-eth2-client/spec/phase0"
@@ -30,7 +34,6 @@ import (
 	"github.com/libp2p/go-libp2p/core/peer"
 	"github.com/libp2p/go-libp2p/core/protocol"
 	"github.com/libp2p/go-msgio/pbio"
-	"github.com/prysmaticlabs/go-bitfield"
 
 	"github.com/obolnetwork/charon/core"
 	pbv1 "github.com/obolnetwork/charon/core/corepb/v1"
@@ -107,7 +110,7 @@ type Case struct {
 	Calls      [][]Deliv `json:"calls"`
 	Items2     []string  `json:"abstract_items"`
 	Label      string    `json:"label"`
-	Expect     string    `json:"expect"` // admit | reject, as the alteration class intends (documentation only)
+	Expect     string    `json:"expect"` // in | reject, as the alteration class intends (documentation only)
 	NonTrivial bool      `json:"nontrivial"`
 	Skipped    string    `json:"skipped,omitempty"`
 }
@@ -127,20 +130,21 @@ type env struct {
 	lockCoq  string
 	baseSlot uint64
 	// per case
-	roots    map[[32]byte]int
-	sigs     map[tbls.Signature]string
-	others   map[tbls.Signature]int
-	proposer map[uint64]int
-	agreed   map[uint64]*eth2api.VersionedProposal
-	attSlots map[uint64]bool
-	whoLog   []int // validator ids the environment callbacks resolved, in call order (-1: refused)
-	subs     [][]Deliv
-	curGen   dutygen.Gen
+	roots        map[[32]byte]int
+	sigs         map[tbls.Signature]string
+	others       map[tbls.Signature]int
+	proposer     map[uint64]int
+	agreed       map[uint64]*eth2api.VersionedProposal
+	agreedSigned map[uint64]*eth2api.VersionedSignedProposal
+	attSlots     map[uint64]bool
+	whoLog       []int // validator ids the environment callbacks resolved, in call order (-1: refused)
+	subs         [][]Deliv
+	curGen       dutygen.Gen
 	// components
-	vapi  *validatorapi.Component
-	fh    *fakeHost
-	gateT time.Time
-	gater core.DutyGaterFunc
+	vapi    *validatorapi.Component
+	fh      *fakeHost
+	gateT   time.Time
+	gater   core.DutyGaterFunc
 	gateLog []bool
 	verLog  []error
 	psx     *parsigex.ParSigEx
@@ -173,15 +177,15 @@ type fakeStream struct {
 	pid  protocol.ID
 }
 
-func (s *fakeStream) Read(p []byte) (int, error)         { return s.r.Read(p) }
-func (s *fakeStream) Write(p []byte) (int, error)        { return s.w.Write(p) }
-func (s *fakeStream) Close() error                       { return nil }
-func (s *fakeStream) Reset() error                       { return nil }
-func (s *fakeStream) SetReadDeadline(time.Time) error    { return nil }
-func (s *fakeStream) SetWriteDeadline(time.Time) error   { return nil }
-func (s *fakeStream) SetDeadline(time.Time) error        { return nil }
-func (s *fakeStream) Protocol() protocol.ID              { return s.pid }
-func (s *fakeStream) Conn() network.Conn                 { return s.conn }
+func (s *fakeStream) Read(p []byte) (int, error)       { return s.r.Read(p) }
+func (s *fakeStream) Write(p []byte) (int, error)      { return s.w.Write(p) }
+func (s *fakeStream) Close() error                     { return nil }
+func (s *fakeStream) Reset() error                     { return nil }
+func (s *fakeStream) SetReadDeadline(time.Time) error  { return nil }
+func (s *fakeStream) SetWriteDeadline(time.Time) error { return nil }
+func (s *fakeStream) SetDeadline(time.Time) error      { return nil }
+func (s *fakeStream) Protocol() protocol.ID            { return s.pid }
+func (s *fakeStream) Conn() network.Conn               { return s.conn }
 
 // ---- environment
 
@@ -301,10 +305,8 @@ func newEnv(t *testing.T) *env {
 	// parsigex with the real verifier and the real gater
 	genesis, err := e.bmock.Genesis(e.ctx, &eth2api.GenesisOpts{})
 	must(t, err)
-	slotDur, _, err := e.bmock.SlotDuration(e.ctx), 0, error(nil)
-	_ = slotDur
-	sd, err2 := e.bmock.SlotDuration(e.ctx)
-	must(t, err2)
+	sd, err := e.bmock.SlotDuration(e.ctx)
+	must(t, err)
 	e.gater, err = core.NewDutyGater(e.ctx, e.bmock, core.WithDutyGaterForT(t, func() time.Time { return e.gateT }, 2))
 	must(t, err)
 	e.gateT = genesis.Data.GenesisTime.Add(time.Duration(e.baseSlot) * sd)
@@ -349,6 +351,7 @@ func (e *env) resetCase() {
 	e.others = map[tbls.Signature]int{}
 	e.proposer = map[uint64]int{}
 	e.agreed = map[uint64]*eth2api.VersionedProposal{}
+	e.agreedSigned = map[uint64]*eth2api.VersionedSignedProposal{}
 	e.attSlots = map[uint64]bool{}
 	e.whoLog = nil
 	e.subs = [][]Deliv{nil, nil}
@@ -476,6 +479,9 @@ func (e *env) observe(set core.ParSignedDataSet) []Deliv {
 
 // ---- leaf fields by reflection
 
+// listElems bounds how many elements of each list are walked (VERIF_ELEMS; 2 in the quick tier).
+var listElems = hx.IntEnv("VERIF_ELEMS", 2)
+
 type leaf struct {
 	path string
 	v    reflect.Value
@@ -504,7 +510,7 @@ func leaves(v reflect.Value, path string, out *[]leaf) {
 
 			return
 		}
-		for i := 0; i < v.Len() && i < 2; i++ { // the first two elements of every list
+		for i := 0; i < v.Len() && i < listElems; i++ { // the first listElems elements of every list
 			leaves(v.Index(i), fmt.Sprintf("%s[%d]", path, i), out)
 		}
 	case reflect.Uint8, reflect.Uint16, reflect.Uint32, reflect.Uint64, reflect.Uint, reflect.Int, reflect.Int32, reflect.Int64, reflect.Bool, reflect.String:
@@ -693,7 +699,7 @@ func innerSelection(raw any, spe uint64) (proof *eth2p0.BLSSignature, dom signin
 }
 
 // unsignedOf returns the unsigned proposal the cluster "agreed on", deep-copied from a signed one.
-func unsignedOf(t *testing.T, p *eth2api.VersionedSignedProposal) *eth2api.VersionedProposal {
+func unsignedOf(t *testing.T, p *eth2api.VersionedSignedProposal) (*eth2api.VersionedProposal, *eth2api.VersionedSignedProposal) {
 	t.Helper()
 	w, err := core.NewVersionedSignedProposal(p)
 	must(t, err)
@@ -711,9 +717,723 @@ func unsignedOf(t *testing.T, p *eth2api.VersionedSignedProposal) *eth2api.Versi
 	case c.CapellaBlinded != nil:
 		u.CapellaBlinded = c.CapellaBlinded.Message
 	case c.Deneb != nil:
-		u.Deneb = &eth2api.VersionedProposal{}.Deneb.BlockContents
+		u.Deneb = &eth2deneb.BlockContents{Block: c.Deneb.SignedBlock.Message, KZGProofs: c.Deneb.KZGProofs, Blobs: c.Deneb.Blobs}
+	case c.DenebBlinded != nil:
+		u.DenebBlinded = c.DenebBlinded.Message
+	case c.Electra != nil:
+		u.Electra = &eth2electra.BlockContents{Block: c.Electra.SignedBlock.Message, KZGProofs: c.Electra.KZGProofs, Blobs: c.Electra.Blobs}
+	case c.ElectraBlinded != nil:
+		u.ElectraBlinded = c.ElectraBlinded.Message
+	case c.Fulu != nil:
+		u.Fulu = &eth2fulu.BlockContents{Block: c.Fulu.SignedBlock.Message, KZGProofs: c.Fulu.KZGProofs, Blobs: c.Fulu.Blobs}
+	case c.FuluBlinded != nil:
+		u.FuluBlinded = c.FuluBlinded.Message
+	default:
+		t.Fatal("unsupported proposal version")
 	}
-	_ = u
+	cl2, err := w.Clone()
+	must(t, err)
+	c2 := cl2.(core.VersionedSignedProposal).VersionedSignedProposal
 
-	return buildUnsigned(c)
+	return u, &c2
+}
+
+// propMatches is the harness's own reading of "the submitted block is the agreed block":
+// same proposer index, blinded flag, version and block root.
+func propMatches(sub, agreed *eth2api.VersionedSignedProposal) (ok bool) {
+	defer func() {
+		if r := recover(); r != nil {
+			ok = false
+		}
+	}()
+	if sub.Version != agreed.Version || sub.Blinded != agreed.Blinded {
+		return false
+	}
+	if *dutygen.PropProposerIndex(sub) != *dutygen.PropProposerIndex(agreed) {
+		return false
+	}
+	sr, err := dutygen.PropRoot(sub)
+	if err != nil {
+		return false
+	}
+	ar, err := dutygen.PropRoot(agreed)
+
+	return err == nil && sr == ar
+}
+
+// prepare makes a fresh raw object of generator g for validator v at the case's slot, registers
+// it with the environment tables and returns it unsigned.
+func (e *env) prepare(g dutygen.Gen, family string, v int, slot uint64) any {
+	raw := g.New(e.t, slot, e.spe)
+	val := e.vals[v]
+	switch family {
+	case "att":
+		a := raw.(*eth2spec.VersionedAttestation)
+		bits := bitfield.NewBitlist(8)
+		bits.SetBitAt(uint64(v), true)
+		e.attSlots[slot] = true
+		switch a.Version {
+		case eth2spec.DataVersionElectra, eth2spec.DataVersionFulu:
+			el := a.Electra
+			if a.Version == eth2spec.DataVersionFulu {
+				el = a.Fulu
+			}
+			el.AggregationBits = bits
+			el.Data.Index = 0
+			cb := bitfield.NewBitvector64()
+			cb.SetBitAt(uint64(10+v), true)
+			el.CommitteeBits = cb
+			vi := val.vidx
+			a.ValidatorIndex = &vi
+		default:
+			for _, p := range []*eth2p0.Attestation{a.Phase0, a.Altair, a.Bellatrix, a.Capella, a.Deneb} {
+				if p != nil {
+					p.AggregationBits = bits
+					p.Data.Index = eth2p0.CommitteeIndex(10 + v)
+				}
+			}
+		}
+	case "proposer":
+		p := raw.(*eth2api.VersionedSignedProposal)
+		*dutygen.PropProposerIndex(p) = val.vidx
+		e.proposer[slot] = v
+		e.agreed[slot], e.agreedSigned[slot] = unsignedOf(e.t, p)
+	case "randao":
+		e.proposer[slot] = v
+		// the handler also awaits the proposal before returning
+		p := e.gens["proposal/deneb"].New(e.t, slot, e.spe).(*eth2api.VersionedSignedProposal)
+		e.agreed[slot], e.agreedSigned[slot] = unsignedOf(e.t, p)
+	case "index":
+		*g.VIdx(raw) = val.vidx
+		if proof, dom, ep, root, ok := innerSelection(raw, e.spe); ok { // inner selection proof: the group signature
+			sr, err := dutygen.SigningRoot(e.ctx, e.bmock, dom, ep, root, dutygen.Own)
+			must(e.t, err)
+			s, err := tbls.Sign(val.sk, sr[:])
+			must(e.t, err)
+			*proof = eth2p0.BLSSignature(s)
+		}
+	}
+
+	return raw
+}
+
+// getSig reads the signature bytes out of a raw object through its core wrapper.
+func getSig(g dutygen.Gen, raw any) (sig tbls.Signature, ok bool) {
+	defer func() {
+		if r := recover(); r != nil {
+			ok = false
+		}
+	}()
+	w, err := g.Wrap(raw)
+	if err != nil {
+		return sig, false
+	}
+	b := w.Signature()
+	if len(b) != 96 {
+		return sig, false
+	}
+
+	return tbls.Signature(b), true
+}
+
+// build makes the final raw object of an item spec.
+func (e *env) build(g dutygen.Gen, family string, it ItemSpec, slot uint64) any {
+	raw := e.prepare(g, family, it.Val, slot)
+	sign := func() {
+		root, ok := e.ownRoot(g, raw, it.Variant)
+		if !ok {
+			return // unreadable after mutation: leave unsigned
+		}
+		s := e.makeSig(it, root)
+		g.SetSig(raw, eth2p0.BLSSignature(s))
+	}
+	if it.VIdxTo != 0 && g.VIdx != nil {
+		*g.VIdx(raw) = eth2p0.ValidatorIndex(it.VIdxTo)
+	}
+	if !it.Resign {
+		sign()
+	}
+	if it.Mut != "" && !mutateLeaf(raw, it.Mut) {
+		e.t.Logf("leaf %s not found in %s", it.Mut, g.Name)
+	}
+	if it.Resign {
+		sign()
+	}
+
+	return raw
+}
+
+func coqBool(b bool) string {
+	if b {
+		return "true"
+	}
+
+	return "false"
+}
+
+func errClassVapi(err error) string {
+	if err == nil {
+		return ""
+	}
+	s := err.Error()
+	switch {
+	case strings.Contains(s, "consensus proposal and VC-submitted one do not match"):
+		return "EProp"
+	case strings.Contains(s, "unknown public key"):
+		return "EUnknownKey"
+	case strings.Contains(s, "invalid eth2 signed data"):
+		return "ENotEth2"
+	case strings.Contains(s, "no signature found"):
+		return "ENoSig"
+	case strings.Contains(s, "signature not verified"), strings.Contains(s, "unmarshal signature into Herumi"):
+		return "EBadSig"
+	case strings.Contains(s, "verif-panic"):
+		return "EPanic"
+	}
+
+	return "EPre" // lookups and well-formedness checks ahead of any signature check
+}
+
+func errClassPeer(err error) string {
+	s := err.Error()
+	switch {
+	case strings.Contains(s, "unknown pubkey, not part of cluster lock"):
+		return "EUnknownKey"
+	case strings.Contains(s, "invalid shareIdx"):
+		return "EShareIdx"
+	case strings.Contains(s, "invalid eth2 signed data"):
+		return "ENotEth2"
+	case strings.Contains(s, "no signature found"):
+		return "ENoSig"
+	case strings.Contains(s, "signature not verified"), strings.Contains(s, "unmarshal signature into Herumi"):
+		return "EBadSig"
+	}
+
+	return "EUnknown"
+}
+
+func (e *env) renderCalls(c *Case) string {
+	var calls []string
+	for _, sub := range e.subs {
+		var ds []string
+		for _, d := range sub {
+			ds = append(ds, fmt.Sprintf("mkd %d %s %d %s", d.V, coqZ(d.Idx), d.Root, coqBool(d.Valid)))
+		}
+		calls = append(calls, "["+strings.Join(ds, "; ")+"]")
+		c.Calls = append(c.Calls, sub)
+	}
+
+	return "[" + strings.Join(calls, "; ") + "]"
+}
+
+// runVapi executes one validator-API case.
+func (e *env) runVapi(spec CaseSpec, ep endpoint) Case {
+	c := Case{CaseSpec: spec}
+	e.resetCase()
+	g := e.gens[spec.Gen]
+	e.curGen = g
+	slot := e.baseSlot
+	var raws []any
+	for _, it := range spec.Items {
+		raws = append(raws, e.build(g, ep.family, it, slot))
+	}
+	// abstract items from the final request
+	type absItem struct {
+		who         int // -2: to be filled from the environment log
+		root        int
+		sig         string
+		prop, inner bool
+	}
+	abs := make([]absItem, len(raws))
+	for i, raw := range raws {
+		a := absItem{who: -1, prop: true, inner: true, sig: "GZero"}
+		if root, ok := e.ownRoot(g, raw, 0); ok {
+			a.root = e.rootID(root)
+		}
+		if s, ok := getSig(g, raw); ok {
+			a.sig = e.sigTerm(s)
+		}
+		switch ep.family {
+		case "att", "proposer", "randao":
+			a.who = -2
+		case "index":
+			func() {
+				defer func() { _ = recover() }()
+				if id, ok := e.byVIdx[*g.VIdx(raw)]; ok {
+					a.who = id
+				}
+			}()
+			if proof, dom, epo, root, ok := innerSelection(raw, e.spe); ok && a.who >= 0 {
+				sr, err := dutygen.SigningRoot(e.ctx, e.bmock, dom, epo, root, dutygen.Own)
+				a.inner = err == nil && *proof != (eth2p0.BLSSignature{}) && tbls.Verify(e.vals[a.who].group, sr[:], tbls.Signature(*proof)) == nil
+			} else if proof != nil || strings.HasPrefix(g.Name, "aggregate_and_proof") || g.Name == "sync_contribution" {
+				if a.who >= 0 && !ok {
+					a.who = -1 // unreadable object
+				}
+			}
+		}
+		if ep.family == "proposer" {
+			p := raw.(*eth2api.VersionedSignedProposal)
+			func() {
+				defer func() {
+					if r := recover(); r != nil {
+						a.prop = false
+					}
+				}()
+				sl, err := p.Slot()
+				if err != nil {
+					return
+				}
+				if ag, ok := e.agreedSigned[uint64(sl)]; ok {
+					a.prop = propMatches(p, ag)
+				}
+			}()
+		}
+		abs[i] = a
+	}
+
+	var err error
+	func() {
+		defer func() {
+			if r := recover(); r != nil {
+				err = fmt.Errorf("verif-panic: %v", r)
+			}
+		}()
+		err = ep.submit(e, raws)
+	}()
+	c.Err = errClassVapi(err)
+	if err != nil {
+		c.ErrText = err.Error()
+		if len(c.ErrText) > 160 {
+			c.ErrText = c.ErrText[:160]
+		}
+	}
+	// resolve "who" of callback families from the environment log (k-th resolution = k-th item)
+	k := 0
+	for i := range abs {
+		if abs[i].who != -2 {
+			continue
+		}
+		abs[i].who = -1
+		if k < len(e.whoLog) {
+			abs[i].who = e.whoLog[k]
+			k++
+		}
+		if ep.family == "proposer" && abs[i].who >= 0 {
+			// the agreed proposal must be available for the submitted slot as well
+			p := raws[i].(*eth2api.VersionedSignedProposal)
+			if sl, err := p.Slot(); err != nil {
+				abs[i].who = -1
+			} else if _, ok := e.agreed[uint64(sl)]; !ok {
+				abs[i].who = -1
+			}
+		}
+	}
+	var items []string
+	for _, a := range abs {
+		who := "None"
+		if a.who >= 0 {
+			who = fmt.Sprintf("(Some %d)", a.who)
+		}
+		items = append(items, fmt.Sprintf("mki %s %s false %d %s %s %s", who, coqZ(selfIdx), a.root, a.sig, coqBool(a.prop), coqBool(a.inner)))
+	}
+	c.Items2 = items
+	errTerm := "None"
+	if c.Err != "" {
+		errTerm = "(Some " + c.Err + ")"
+	}
+	c.Label = fmt.Sprintf("mkl lock (VApi %s) [%s] 2 %s %s", coqZ(selfIdx), strings.Join(items, "; "), errTerm, e.renderCalls(&c))
+	c.NonTrivial = spec.Class != "valid"
+
+	return c
+}
+
+// runPeer executes one peer-message case.
+func (e *env) runPeer(spec CaseSpec) Case {
+	c := Case{CaseSpec: spec}
+	e.resetCase()
+	g := e.gens[spec.Gen]
+	e.curGen = g
+	slot := e.baseSlot
+	set := core.ParSignedDataSet{}
+	randomKeys := map[core.PubKey]bool{}
+	for _, it := range spec.Items {
+		fam := ""
+		if g.VIdx != nil {
+			fam = "index"
+		}
+		raw := e.build(g, fam, it, slot)
+		var sd core.SignedData
+		if spec.DutyType == int(core.DutySignature) {
+			s, _ := getSig(g, raw)
+			sd = core.Signature(s[:])
+		} else {
+			w, err := g.Wrap(raw)
+			if err != nil {
+				c.Skipped = "cannot wrap: " + err.Error()
+				return c
+			}
+			sd = w
+		}
+		pk := core.PubKey("")
+		if it.KeyOf >= 0 {
+			pk = e.vals[it.KeyOf].pk
+		} else {
+			pk = testutil.RandomCorePubKey(e.t)
+			randomKeys[pk] = true
+		}
+		set[pk] = core.ParSignedData{SignedData: sd, ShareIdx: it.Idx}
+	}
+	dutyType := g.Duty
+	if spec.DutyType != 0 {
+		dutyType = core.DutyType(spec.DutyType)
+	}
+	if spec.DutyType == -1 {
+		dutyType = core.DutyUnknown
+	}
+	duty := core.Duty{Slot: slot + uint64(spec.SlotAdd)*e.spe, Type: dutyType}
+	msg := &pbv1.ParSigExMsg{Duty: core.DutyToProto(duty)}
+	var skip string
+	func() {
+		defer func() {
+			if r := recover(); r != nil {
+				skip = fmt.Sprintf("cannot encode: %v", r)
+			}
+		}()
+		pb, err := core.ParSignedDataSetToProto(set)
+		if err != nil {
+			skip = "cannot encode: " + err.Error()
+			return
+		}
+		msg.DataSet = pb
+	}()
+	if skip != "" {
+		c.Skipped = skip
+		return c
+	}
+	// decode oracle and abstract items from the decoded set
+	typeValid := dutyType > core.DutyUnknown && int(dutyType) < 14
+	decoded, derr := core.ParSignedDataSetFromProto(dutyType, msg.GetDataSet())
+	var items []string
+	if derr == nil {
+		var pks []core.PubKey
+		for pk := range decoded {
+			pks = append(pks, pk)
+		}
+		sort.Slice(pks, func(i, j int) bool { return pks[i] < pks[j] })
+		for _, pk := range pks {
+			psd := decoded[pk]
+			who := unknownV
+			if id, ok := e.byPK[pk]; ok {
+				who = id
+			}
+			rootID, raw, sig := 0, false, "GZero"
+			if _, ok := psd.SignedData.(core.Signature); ok {
+				raw = true
+			}
+			for _, gg := range append([]dutygen.Gen{g}, e.allGens...) {
+				if rw := gg.Unwrap(psd.SignedData); rw != nil {
+					if r, ok := e.ownRoot(gg, rw, 0); ok {
+						rootID = e.rootID(r)
+					}
+
+					break
+				}
+			}
+			if b := psd.Signature(); len(b) == 96 {
+				sig = e.sigTerm(tbls.Signature(b))
+			} else if len(b) > 0 {
+				sig = "(GOther 0)"
+			}
+			items = append(items, fmt.Sprintf("mki (Some %d) %s %s %d %s true true", who, coqZ(psd.ShareIdx), coqBool(raw), rootID, sig))
+		}
+	}
+	c.Items2 = items
+
+	// deliver through the stream handler parsigex registered
+	var buf bytes.Buffer
+	must(e.t, pbio.NewDelimitedWriter(&buf).WriteMsg(msg))
+	pid := parsigex.Protocols()[0]
+	e.fh.handler(&fakeStream{r: bytes.NewReader(buf.Bytes()), conn: fakeConn{remote: "peer-a"}, pid: pid})
+
+	switch {
+	case len(e.gateLog) == 1 && !e.gateLog[0]:
+		c.Err = "EGate"
+	case len(e.gateLog) == 0:
+		c.Err = "EUnknown"
+		c.ErrText = "gater not consulted"
+	default:
+		for _, ve := range e.verLog {
+			if ve != nil {
+				c.Err = errClassPeer(ve)
+				c.ErrText = ve.Error()
+				if len(c.ErrText) > 160 {
+					c.ErrText = c.ErrText[:160]
+				}
+			}
+		}
+		if c.Err == "" && len(e.verLog) == 0 && len(e.subs[0]) == 0 && (derr != nil || len(set) > 0) {
+			c.Err = "EDecode"
+		}
+	}
+	errTerm := "None"
+	if c.Err != "" {
+		errTerm = "(Some " + c.Err + ")"
+	}
+	c.Label = fmt.Sprintf("mkl lock (Peer (mkg %s %d %d %d 2) %s) [%s] 2 %s %s",
+		coqBool(typeValid), duty.Slot, e.baseSlot, e.spe, coqBool(derr == nil), strings.Join(items, "; "), errTerm, e.renderCalls(&c))
+	c.NonTrivial = spec.Class != "valid"
+
+	return c
+}
+
+// ---- generation
+
+func genuine(v, idx int) ItemSpec {
+	return ItemSpec{Val: v, SigKind: "genuine", SigVal: v, SigIdx: idx, Idx: idx, KeyOf: v}
+}
+
+// sigAlterations lists the alteration classes that do not depend on the object's fields.
+// peer=true adds the ones that only exist for peer messages.
+func sigAlterations(self int, peer bool) map[string]func(it *ItemSpec) {
+	m := map[string]func(it *ItemSpec){
+		"wrong_share":     func(it *ItemSpec) { it.SigIdx = self%nShares + 1 },
+		"wrong_validator": func(it *ItemSpec) { it.SigVal = (it.Val + 1) % outsider },
+		"other_domain":    func(it *ItemSpec) { it.Variant = int(dutygen.OtherDomain) },
+		"other_fork":      func(it *ItemSpec) { it.Variant = int(dutygen.OtherFork) },
+		"zero_sig":        func(it *ItemSpec) { it.SigKind = "zero" },
+		"random_sig":      func(it *ItemSpec) { it.SigKind = "random" },
+		"infinity_sig":    func(it *ItemSpec) { it.SigKind = "inf" },
+		"foreign_key":     func(it *ItemSpec) { it.SigKind = "foreign" },
+	}
+	if peer {
+		m["idx_out_of_range"] = func(it *ItemSpec) { it.Idx = nShares + 1 }
+		m["idx_zero"] = func(it *ItemSpec) { it.Idx = 0 }
+		m["idx_negative"] = func(it *ItemSpec) { it.Idx = -1 }
+		m["idx_other_in_range"] = func(it *ItemSpec) { it.Idx = it.Idx%nShares + 1 }
+		m["key_of_other_validator"] = func(it *ItemSpec) { it.KeyOf = (it.Val + 1) % outsider }
+		m["key_not_in_lock"] = func(it *ItemSpec) { it.KeyOf = outsider }
+		m["key_random"] = func(it *ItemSpec) { it.KeyOf = -1 }
+	} else {
+		m["validator_not_in_lock"] = func(it *ItemSpec) { it.Val, it.SigVal = outsider, outsider }
+		m["validator_unknown_to_beacon"] = func(it *ItemSpec) { it.VIdxTo = 999 }
+		m["validator_index_of_other"] = func(it *ItemSpec) { it.VIdxTo = 100 + (it.Val+1)%outsider }
+	}
+
+	return m
+}
+
+func sortedKeys(m map[string]func(it *ItemSpec)) []string {
+	var ks []string
+	for k := range m {
+		ks = append(ks, k)
+	}
+	sort.Strings(ks)
+
+	return ks
+}
+
+func (e *env) templatePaths(g dutygen.Gen, family string) []string {
+	e.resetCase()
+	raw := e.build(g, family, genuine(0, selfIdx), e.baseSlot)
+
+	return leafPaths(raw)
+}
+
+func (e *env) pick(paths []string, k int) []string {
+	if k <= 0 || k >= len(paths) {
+		return paths
+	}
+	p := e.r.Perm(len(paths))
+	out := make([]string, 0, k)
+	for _, i := range p[:k] {
+		out = append(out, paths[i])
+	}
+	sort.Strings(out)
+
+	return out
+}
+
+type genOut struct {
+	specs  []CaseSpec
+	leaves map[string]int // endpoint|gen -> number of leaf fields enumerated
+}
+
+func (e *env) genCases(perGenLeaves int) genOut {
+	out := genOut{leaves: map[string]int{}}
+	add := func(c CaseSpec) {
+		c.ID = len(out.specs)
+		out.specs = append(out.specs, c)
+	}
+	// validator API
+	for _, ep := range e.endpoints() {
+		alts := sigAlterations(selfIdx, false)
+		for _, gn := range ep.gens {
+			g := e.gens[gn]
+			base := CaseSpec{Entrance: "vapi", Endpoint: ep.name, Gen: gn}
+			one := func(class string, f func(it *ItemSpec)) {
+				c := base
+				c.Class = class
+				it := genuine(e.r.Intn(outsider), selfIdx)
+				if f != nil {
+					f(&it)
+				}
+				c.Items = []ItemSpec{it}
+				add(c)
+			}
+			one("valid", nil)
+			for _, k := range sortedKeys(alts) {
+				if strings.HasPrefix(k, "validator_index") || k == "validator_unknown_to_beacon" {
+					if ep.family != "index" {
+						continue
+					}
+				}
+				one(k, alts[k])
+			}
+			paths := e.templatePaths(g, ep.family)
+			if ep.name == "SubmitBlindedProposal" { // VersionedSignedBlindedProposal has no Blinded field
+				var keep []string
+				for _, p := range paths {
+					if p != ".Blinded" {
+						keep = append(keep, p)
+					}
+				}
+				paths = keep
+			}
+			out.leaves[ep.name+"|"+gn] = len(paths)
+			for _, p := range e.pick(paths, perGenLeaves) {
+				one("field:"+p, func(it *ItemSpec) { it.Mut = p })
+			}
+			// altered and signed again with the right share: valid unless a check beyond the
+			// signature (agreed proposal, inner selection proof, validator resolution) refuses it
+			for _, p := range e.pick(paths, (perGenLeaves+1)/2) {
+				one("field+resign:"+p, func(it *ItemSpec) { it.Mut = p; it.Resign = true })
+			}
+			if ep.multi {
+				// several validators in one request: all good; one bad among good ones (each position)
+				c := base
+				c.Class = "multi_valid"
+				for v := 0; v < outsider; v++ {
+					c.Items = append(c.Items, genuine(v, selfIdx))
+				}
+				add(c)
+				for pos := 0; pos < outsider; pos++ {
+					for _, k := range []string{"wrong_share", "other_fork", "zero_sig"} {
+						c := base
+						c.Class = "multi_one_bad:" + k
+						for v := 0; v < outsider; v++ {
+							it := genuine(v, selfIdx)
+							if v == pos {
+								alts[k](&it)
+							}
+							c.Items = append(c.Items, it)
+						}
+						add(c)
+					}
+				}
+			}
+		}
+	}
+	// peer messages
+	palts := sigAlterations(selfIdx, true)
+	for _, g := range e.allGens {
+		base := CaseSpec{Entrance: "peer", Endpoint: "parsigex.handle", Gen: g.Name}
+		sender := func() int { return []int{1, 3, 4}[e.r.Intn(3)] }
+		one := func(class string, f func(c *CaseSpec, it *ItemSpec)) {
+			c := base
+			c.Class = class
+			it := genuine(e.r.Intn(outsider), sender())
+			if f != nil {
+				f(&c, &it)
+			}
+			c.Items = []ItemSpec{it}
+			add(c)
+		}
+		one("valid", nil)
+		for _, k := range sortedKeys(palts) {
+			one(k, func(_ *CaseSpec, it *ItemSpec) { palts[k](it) })
+		}
+		one("own_share_index_from_peer", func(_ *CaseSpec, it *ItemSpec) { it.Idx, it.SigIdx = selfIdx, selfIdx })
+		one("gate_future_epoch_3", func(c *CaseSpec, _ *ItemSpec) { c.SlotAdd = 3 })
+		one("gate_future_epoch_2_allowed", func(c *CaseSpec, _ *ItemSpec) { c.SlotAdd = 2 })
+		one("gate_far_future", func(c *CaseSpec, _ *ItemSpec) { c.SlotAdd = 1000 })
+		one("gate_duty_type_unknown", func(c *CaseSpec, _ *ItemSpec) { c.DutyType = -1 })
+		one("gate_duty_type_sentinel", func(c *CaseSpec, _ *ItemSpec) { c.DutyType = 14 })
+		one("duty_type_signature_raw", func(c *CaseSpec, _ *ItemSpec) { c.DutyType = int(core.DutySignature) })
+		one("duty_type_confusion", func(c *CaseSpec, _ *ItemSpec) {
+			c.DutyType = int(core.DutyRandao)
+			if g.Duty == core.DutyRandao {
+				c.DutyType = int(core.DutyExit)
+			}
+		})
+		paths := e.templatePaths(g, map[bool]string{true: "index", false: ""}[g.VIdx != nil])
+		out.leaves["parsigex.handle|"+g.Name] = len(paths)
+		for _, p := range e.pick(paths, perGenLeaves) {
+			one("field:"+p, func(_ *CaseSpec, it *ItemSpec) { it.Mut = p })
+		}
+		for _, p := range e.pick(paths, (perGenLeaves+3)/4) {
+			one("field+resign:"+p, func(_ *CaseSpec, it *ItemSpec) { it.Mut = p; it.Resign = true })
+		}
+		// sets: all good; one bad among good ones
+		c := base
+		c.Class = "multi_valid"
+		s := sender()
+		for v := 0; v < outsider; v++ {
+			c.Items = append(c.Items, genuine(v, s))
+		}
+		add(c)
+		for pos := 0; pos < outsider; pos++ {
+			for _, k := range []string{"wrong_share", "other_domain", "zero_sig", "idx_out_of_range"} {
+				c := base
+				c.Class = "multi_one_bad:" + k
+				for v := 0; v < outsider; v++ {
+					it := genuine(v, s)
+					if v == pos {
+						palts[k](&it)
+					}
+					c.Items = append(c.Items, it)
+				}
+				add(c)
+			}
+		}
+	}
+
+	return out
+}
+
+func (e *env) runSpec(spec CaseSpec) Case {
+	if spec.Entrance == "peer" {
+		return e.runPeer(spec)
+	}
+	for _, ep := range e.endpoints() {
+		if ep.name == spec.Endpoint {
+			return e.runVapi(spec, ep)
+		}
+	}
+	e.t.Fatalf("unknown endpoint %q", spec.Endpoint)
+
+	return Case{}
+}
+
+func TestGen(t *testing.T) {
+	e := newEnv(t)
+	var replay CaseSpec
+	if ok, err := hx.ReadReplay(&replay); ok {
+		must(t, err)
+		c := e.runSpec(replay)
+		must(t, hx.WriteJSON("gate_cases.json", map[string]any{"lock": e.lockCoq, "cases": []Case{c}, "leaves": map[string]int{}}))
+
+		return
+	}
+	gen := e.genCases(hx.IntEnv("VERIF_LEAVES", 6))
+	cases := make([]Case, 0, len(gen.specs))
+	for _, s := range gen.specs {
+		cases = append(cases, e.runSpec(s))
+	}
+	// SubmitValidatorRegistrations takes no partial signature in: it must never reach a subscriber
+	e.resetCase()
+	reg := e.gens["builder_registration/v1"].New(t, e.baseSlot, e.spe).(*eth2api.VersionedSignedValidatorRegistration)
+	err := e.vapi.SubmitValidatorRegistrations(e.ctx, []*eth2api.VersionedSignedValidatorRegistration{reg})
+	regOK := err == nil && len(e.subs[0]) == 0 && len(e.subs[1]) == 0
+	must(t, hx.WriteJSON("gate_cases.json", map[string]any{"lock": e.lockCoq, "cases": cases, "leaves": gen.leaves, "registrations_swallowed": regOK}))
 }
